@@ -11,7 +11,7 @@ from kit.sym import param
 from gherkin.parser import Parser
 from gherkin.errors import (CompositeParserException, ParserException, UnexpectedEOFException,
                             UnexpectedTokenException, NoSuchLanguageException, AstBuilderException)
-from kit import pdrive, specparse
+from kit import pdrive, specparse, specast, astgen
 from kit.pdrive import NK
 
 PREFIX = param("prefix", [])
@@ -87,6 +87,20 @@ def compare(kinds, stop):
         # C03: the AST contains exactly the elements the specification-level parser delivered, each once, in document order
         with sym.untraced():
             if ast_census(real["doc"]) != spec_census(spec["events"]):
+                return False
+            # the whole AST (nesting, order, canonical ids) equals the one built from the grammar derivation, and so do the pickles
+            # compiled from it (source-level check of C06/C07/C08/C10/C11: pickles against what the SOURCE says, not against the AST)
+            want, nxt = specast.build(spec["events"], kinds)
+            if not astgen.same(real["doc"], want):
+                return False
+            got_doc = dict(real["doc"])
+            got_doc["uri"] = "u"
+            want["uri"] = "u"
+            from gherkin.pickles.compiler import Compiler
+            from gherkin.stream.id_generator import IdGenerator
+            idg = IdGenerator()
+            idg._id_counter = nxt
+            if not astgen.same(Compiler(idg).compile(got_doc), astgen.ref_compile(want, nxt)):
                 return False
         # C18: one build per physical line, in order, then exactly one EOF
         builds = [e[1] for e in real["events"] if e[0] == "build"]
